@@ -22,6 +22,7 @@ import sys
 import traceback
 from abc import ABC, abstractmethod
 from collections import deque, namedtuple
+from threading import RLock
 from time import sleep
 from typing import List, Iterable, Dict, Type, Optional, Union, cast
 from weakref import WeakValueDictionary
@@ -1082,6 +1083,8 @@ class MemoryCache:
     lru_deque = None  # type: deque
     cache = None  # type: Dict[str, _CacheEntry]
     refs = None  # type: WeakValueDictionary
+    _lock = None  # type: RLock
+    """Guards all of the above: the cache is shared by the threads of a process"""
 
     def __init__(self, memory_cache_mb: int = None):
         self.memory_cache_bytes = memory_cache_mb * 1024 * 1024
@@ -1089,6 +1092,7 @@ class MemoryCache:
         self.lru_deque = deque()
         self.cache = dict()
         self.refs = WeakValueDictionary()
+        self._lock = RLock()
 
     @staticmethod
     def _pd_mem_usage(obj: Union[pd.DataFrame, pd.Series]) -> int:
@@ -1193,39 +1197,43 @@ class MemoryCache:
     def get_mementos(
         self, fns: List[FunctionReferenceWithArgHash]
     ) -> List[Optional[Memento]]:
-        result = []
-        for fn in fns:
-            cache_key = self._cache_key_for_fn(fn.fn_reference, fn.arg_hash)
-            entry = self.cache.get(cache_key)
-            if entry is None:
-                result.append(None)
-            else:
-                memento = entry.memento
-                result.append(memento)
-        return result
+        with self._lock:
+            result = []
+            for fn in fns:
+                cache_key = self._cache_key_for_fn(fn.fn_reference, fn.arg_hash)
+                entry = self.cache.get(cache_key)
+                if entry is None:
+                    result.append(None)
+                else:
+                    memento = entry.memento
+                    result.append(memento)
+            return result
 
     def read_result(self, memento: Memento) -> object:
         """Return the memento if it exists in the cache, else raise KeyError"""
-        cache_key = self._cache_key_for_memento(memento)
-        if cache_key in self.cache:
-            entry = self.cache[cache_key]  # May raise KeyError
-            if not entry.has_value:
-                raise KeyError()
-            self._mark_used(cache_key)
-            return entry.value
-        else:
-            # return a cached ref if it's still in memory
-            return self.refs[cache_key]  # May raise KeyError
+        with self._lock:
+            cache_key = self._cache_key_for_memento(memento)
+            if cache_key in self.cache:
+                entry = self.cache[cache_key]  # May raise KeyError
+                if not entry.has_value:
+                    raise KeyError()
+                self._mark_used(cache_key)
+                return entry.value
+            else:
+                # return a cached ref if it's still in memory
+                return self.refs[cache_key]  # May raise KeyError
 
     def is_memoized(self, fn_reference: FunctionReference, arg_hash: str) -> bool:
-        cache_key = self._cache_key_for_fn(fn_reference, arg_hash)
-        if cache_key in self.cache:
-            self._mark_used(cache_key)
-            return True
-        return cache_key in self.refs
+        with self._lock:
+            cache_key = self._cache_key_for_fn(fn_reference, arg_hash)
+            if cache_key in self.cache:
+                self._mark_used(cache_key)
+                return True
+            return cache_key in self.refs
 
     def is_all_memoized(self, fns: Iterable[FunctionReferenceWithArguments]) -> bool:
-        return all([self.is_memoized(x.fn_reference, x.arg_hash) for x in fns])
+        with self._lock:
+            return all([self.is_memoized(x.fn_reference, x.arg_hash) for x in fns])
 
     def _put_ref(self, cache_key, result):
         try:
@@ -1235,68 +1243,72 @@ class MemoryCache:
             pass
 
     def put(self, memento: Memento, result: object, has_result: bool):
-        cache_key = self._cache_key_for_memento(memento)
-        if has_result:
-            self._put_ref(cache_key, result)
+        with self._lock:
+            cache_key = self._cache_key_for_memento(memento)
+            if has_result:
+                self._put_ref(cache_key, result)
 
-        # If the object is too big to fit in the cache, return immediately. Any entry
-        # previously cached for this memento is stale at this point, so drop it first.
-        obj_size = self._estimate_object_size(result)
-        if obj_size > self.memory_cache_bytes:
+            # If the object is too big to fit in the cache, return immediately. Any entry
+            # previously cached for this memento is stale at this point, so drop it first.
+            obj_size = self._estimate_object_size(result)
+            if obj_size > self.memory_cache_bytes:
+                self._evict(cache_key)
+                return
+
+            # "view busting"
+            # until we have reliable view detection code, we'll just copy everything to prevent
+            # memory leaks
+            if isinstance(result, pd.DataFrame) or isinstance(result, pd.Series):
+                result = result.copy()
+                self._put_ref(cache_key, result)
+
+            # Remove any existing cached items for this memento
             self._evict(cache_key)
-            return
 
-        # "view busting"
-        # until we have reliable view detection code, we'll just copy everything to prevent
-        # memory leaks
-        if isinstance(result, pd.DataFrame) or isinstance(result, pd.Series):
-            result = result.copy()
-            self._put_ref(cache_key, result)
+            # Free up memory in the cache (if needed) by discarding LRU
+            while (
+                len(self.lru_deque) > 0
+                and self.memory_usage + obj_size > self.memory_cache_bytes
+            ):
+                self._evict(self.lru_deque.popleft())
 
-        # Remove any existing cached items for this memento
-        self._evict(cache_key)
-
-        # Free up memory in the cache (if needed) by discarding LRU
-        while (
-            len(self.lru_deque) > 0
-            and self.memory_usage + obj_size > self.memory_cache_bytes
-        ):
-            self._evict(self.lru_deque.popleft())
-
-        # Add to cache
-        entry = _CacheEntry(obj_size, memento, result, has_value=has_result)
-        self.cache[cache_key] = entry
-        self.lru_deque.append(cache_key)
-        self.memory_usage += obj_size
+            # Add to cache
+            entry = _CacheEntry(obj_size, memento, result, has_value=has_result)
+            self.cache[cache_key] = entry
+            self.lru_deque.append(cache_key)
+            self.memory_usage += obj_size
 
     def forget_call(self, fn_with_arg_hash: FunctionReferenceWithArgHash):
-        cache_key = self._cache_key_for_fn(
-            fn_with_arg_hash.fn_reference, fn_with_arg_hash.arg_hash
-        )
-        self.refs.pop(cache_key, None)
-        self._evict(cache_key)
+        with self._lock:
+            cache_key = self._cache_key_for_fn(
+                fn_with_arg_hash.fn_reference, fn_with_arg_hash.arg_hash
+            )
+            self.refs.pop(cache_key, None)
+            self._evict(cache_key)
 
     def forget_everything(self):
-        self.memory_usage = 0
-        self.cache.clear()
-        self.lru_deque.clear()
-        self.refs.clear()
+        with self._lock:
+            self.memory_usage = 0
+            self.cache.clear()
+            self.lru_deque.clear()
+            self.refs.clear()
 
     def forget_function(self, fn_reference: FunctionReference):
-        qualified_name = fn_reference.qualified_name
-        qualified_name_slash = qualified_name + "/"
-        # This is O(n) but should be a rare operation and spares us the complexity of maintaining
-        # a second map
-        ref_list = [
-            key for key in self.refs.keys() if key.startswith(qualified_name_slash)
-        ]
-        for key in ref_list:
-            del self.refs[key]
-        evict_list = [
-            key for key in self.cache.keys() if key.startswith(qualified_name_slash)
-        ]
-        for key in evict_list:
-            self._evict(key)
+        with self._lock:
+            qualified_name = fn_reference.qualified_name
+            qualified_name_slash = qualified_name + "/"
+            # This is O(n) but should be a rare operation and spares us the complexity of maintaining
+            # a second map
+            ref_list = [
+                key for key in self.refs.keys() if key.startswith(qualified_name_slash)
+            ]
+            for key in ref_list:
+                del self.refs[key]
+            evict_list = [
+                key for key in self.cache.keys() if key.startswith(qualified_name_slash)
+            ]
+            for key in evict_list:
+                self._evict(key)
 
 
 class StorageBackendBase(StorageBackend, ABC):
